@@ -42,10 +42,18 @@ def run_case(case, acc, order):
             id_lists = [[i] for i in range(ns)] + [list(range(ns)), list(range(ns))[::-1], [ns - 1, 0]]
             chan_lists = [None, [1], [nc - 1, 0]]
 
+            stored_for = {}      # spike -> channels held by the subset store (filled after an export)
+
             def query(tag, factor, dtype_exp):
                 for ids in id_lists:
                     for ch in chan_lists:
                         chl = list(range(nc)) if ch is None else ch
+                        if tag == 'store' and any(c not in stored_for.get(i, chl) for i in ids for c in chl):
+                            # the statement claims nothing about channels the store does not hold
+                            common = [c for c in range(nc) if all(c in stored_for.get(i, []) for i in ids)]
+                            if len(common) < 2:
+                                continue
+                            ch = chl = [common[-1], common[0]]
                         exp = np.stack([window(A, samples[i], nsw, chl) for i in ids]).astype(
                             np.float64) * factor
                         try:
@@ -127,6 +135,9 @@ def run_case(case, acc, order):
                         bad.append(('model-subset-export', 'stored-window', {'spike': i, 'channels': chl},
                                     describe(exp), describe(W[r])))
                         break
+                stored_for.clear()
+                for r, i in enumerate(sid.tolist()):
+                    stored_for[int(i)] = [int(c) for c in sch[r] if c != -1]
                 query('store', float(factor), None)
         finally:
             m.close()
@@ -135,7 +146,7 @@ def run_case(case, acc, order):
         acc.violation(sig, core.make_record(PROP, 'model-routes', sig, case=case, op=op, expected=exp,
                                             observed=got), order)
     if order % 13 == 0:
-        acc.sample({'sweep': 'D', 'spec': {k: spec[k] for k in ('raw_dtype', 'raw_files', 'raw_offset',
+        acc.sample({'sweep': 'D', 'spec': {k: spec.get(k) for k in ('raw_dtype', 'raw_files', 'raw_offset',
                                                                'channel_map', 'time_dtype', 'nsw',
                                                                'spike_samples')}})
 
@@ -161,6 +172,13 @@ def explore(ctx):
                                 'tfeatures': 'absent', 'sample_rate': [100.0, 10 / 600.0][i % 2],
                                 'fill': ctx.seed + i}
                         cases.append({'spec': spec, 'factors': [1, 2.5] if i % 2 else [1.0, 2]})
+    for cmap in ('identity', 'perm'):
+        spikes = [0, 1, 2, 9, 10, n_raw - 2, n_raw - 1]
+        cases.append({'spec': {'n_spikes': len(spikes), 'n_templates': 3, 'n_channels': 14,
+                               'geometry': 'col14', 'nsw': 4, 'n_raw': n_raw, 'spike_samples': spikes,
+                               'raw': True, 'raw_dtype': 'int16', 'channel_map': cmap,
+                               'time_dtype': 'uint64', 'features': 'absent', 'tfeatures': 'absent',
+                               'sample_rate': 100.0, 'fill': ctx.seed}, 'factors': [1, 2.5]})
     ctx.run_cases(run_case, cases, chunk=1, sweep='D-model-routes')
     ctx.bounds['D'] = {'spikes_at': [0, 1, 2, 9, 10, 'n-2', 'n-1'], 'raw_dtype': ['int16', 'float32'],
                        'raw_files': [1, 2, 3], 'channel_map': ['identity', 'perm', 'sub'],
